@@ -212,7 +212,11 @@ class BugQuery:
                     "any_of() only accepts chart based queries, got "
                     f"{[key for key, _ in query.simple]}"
                 )
-            charts.extend(query.charts)
+            if len(query.charts) > 1:
+                # the operand is a conjunction; keep it one inside the OR
+                charts.append(ChartGroup(Join.AND, query.charts))
+            else:
+                charts.extend(query.charts)
         return cls(charts=(ChartGroup(Join.OR, tuple(charts)),))
 
     def __and__(self, other: "BugQuery") -> "BugQuery":
